@@ -7,6 +7,7 @@
 package c04
 
 import (
+	"bytes"
 	"context"
 	"encoding/json"
 	"errors"
@@ -161,10 +162,29 @@ var theT *testing.T
 
 func run(s Script) (res vt.Result) {
 	if p := vt.Bubble(theT, func() { res = runInBubble(s) }); p != "" {
-		res.Failf("bubble did not end cleanly (blocked call, leaked cancel helper, or deadlock): %s", p)
+		if stuckInSession(p) {
+			res.Failf("bubble did not end cleanly (blocked call or deadlock): %s", p)
+		} else {
+			res.Class("teardown_leftover") // some other goroutine stayed behind: judged by C05, not here
+		}
 	}
 	return res
 }
+
+// stuckInSession reports whether the leftover goroutines of a bubble include one of the harness' own (a call,
+// ping or Close that never returned) or one parked inside a call / Wait / Close of the SDK.
+func stuckInSession(stacks string) bool {
+	for _, m := range []string{"verif/c04.", "(*AsyncCall).Await", "Session).Wait(", "Session).Close(", "(*Connection).wait("} {
+		if strings.Contains(stacks, m) {
+			return true
+		}
+	}
+	return false
+}
+
+// promptGrace is what "promptly" tolerates: the property names no number; anything near the 5 s budget of the
+// cancellation notice (a caller that waits for its delivery) is far beyond it.
+const promptGrace = 100 * time.Millisecond
 
 type toolIn struct {
 	K int `json:"k"`
@@ -278,7 +298,9 @@ func runInBubble(s Script) (res vt.Result) {
 	var desc strings.Builder
 	cancelledInflight, sawBlockCancel := 0, false
 
-	check := func(step int) {
+	// checkOnce judges the state at quiescence. "The peer's handler has not been told yet" is only final after
+	// promptGrace of virtual time: the property does not say that the notice travels in no time at all.
+	checkOnce := func(step int, final bool) (retry bool) {
 		now := time.Now()
 		w.mu.Lock()
 		defer w.mu.Unlock()
@@ -292,7 +314,7 @@ func runInBubble(s Script) (res vt.Result) {
 				continue
 			}
 			if c.cancelled && done {
-				if d := c.returnedAt.Sub(c.cancelledAt); d > 0 {
+				if d := c.returnedAt.Sub(c.cancelledAt); d > promptGrace {
 					res.Failf("step %d: call %d returned %v of virtual time after its context ended", step, c.k, d)
 				}
 				ctxErr := c.err != nil && (errors.Is(c.err, context.Canceled) || errors.Is(c.err, context.DeadlineExceeded))
@@ -301,6 +323,10 @@ func runInBubble(s Script) (res vt.Result) {
 				}
 				// the matching peer handler must have been told (healthy link), if it was running
 				if c.started && !c.finished && !blocked {
+					if !final {
+						retry = true
+						continue
+					}
 					res.Failf("step %d: call %d was cancelled but its peer handler is still parked with a live context", step, c.k)
 				}
 			}
@@ -319,6 +345,14 @@ func runInBubble(s Script) (res vt.Result) {
 					res.Failf("step %d: call %d's handler was released but the call has not returned", step, c.k)
 				}
 			}
+		}
+		return retry
+	}
+	check := func(step int) {
+		if checkOnce(step, false) && len(res.Violations) == 0 {
+			time.Sleep(promptGrace)
+			synctest.Wait()
+			checkOnce(step, true)
 		}
 	}
 
@@ -564,9 +598,19 @@ func genP(rt *rapid.T) PScript {
 	return s
 }
 
+// idJSON spells a request id as the JSON token a notifications/cancelled carries (number or quoted string).
+func idJSON(id *jsonrpc.ID) string {
+	b, _ := json.Marshal(id.Raw())
+	return string(b)
+}
+
 func runP(s PScript) (res vt.Result) {
 	if p := vt.Bubble(theT, func() { res = runPInBubble(s) }); p != "" {
-		res.Failf("bubble did not end cleanly (cancel helper or call leaked): %s", p)
+		if stuckInSession(p) {
+			res.Failf("bubble did not end cleanly (a call leaked): %s", p)
+		} else {
+			res.Class("teardown_leftover")
+		}
 	}
 	return res
 }
@@ -608,6 +652,12 @@ func runPInBubble(s PScript) (res vt.Result) {
 			res.Failf("setup: %v", err)
 			return
 		}
+		// the scripted peer plays the documented legacy handshake and declares roots: an SDK may refuse
+		// roots/list on a session its client has not initialised
+		sc.InjectRaw(`{"jsonrpc":"2.0","id":"hs","method":"initialize","params":{"protocolVersion":"2025-06-18","capabilities":{"roots":{}},"clientInfo":{"name":"scripted","version":"0"}}}`)
+		synctest.Wait()
+		sc.InjectRaw(`{"jsonrpc":"2.0","method":"notifications/initialized"}`)
+		synctest.Wait()
 		doCall = func(ctx context.Context, k int) error {
 			_, err := ss.ListRoots(ctx, &mcp.ListRootsParams{Meta: mcp.Meta{"k": k}})
 			return err
@@ -667,7 +717,7 @@ func runPInBubble(s PScript) (res vt.Result) {
 					RequestID json.RawMessage `json:"requestId"`
 				}
 				json.Unmarshal(r.Params, &p)
-				out = append(out, string(p.RequestID))
+				out = append(out, string(bytes.TrimSpace(p.RequestID)))
 			}
 		}
 		sort.Strings(out)
@@ -750,7 +800,7 @@ func runPInBubble(s PScript) (res vt.Result) {
 				res.Failf("step %d: call %d cancelled at t=%v has not returned although cancellation must not wait for the peer (transport stalled: %v)", i, c.k, c.cancelledAt.Format("05.000"), c.whileStall)
 			}
 			if c.cancelled && isDone(c) {
-				if d := c.returnedAt.Sub(c.cancelledAt); d > 0 {
+				if d := c.returnedAt.Sub(c.cancelledAt); d > promptGrace {
 					res.Failf("step %d: call %d returned %v after its cancellation (must be prompt even if the cancellation notice cannot be delivered)", i, c.k, d)
 				}
 				if !errors.Is(c.err, context.Canceled) {
@@ -779,7 +829,7 @@ func runPInBubble(s PScript) (res vt.Result) {
 		allowed := map[string]bool{}
 		for _, c := range calls {
 			if c.cancelled && c.id != nil {
-				allowed[fmt.Sprint(c.id.Raw())] = true
+				allowed[idJSON(c.id)] = true
 			}
 		}
 		seen := map[string]int{}
@@ -789,12 +839,12 @@ func runPInBubble(s PScript) (res vt.Result) {
 				res.Failf("the peer received notifications/cancelled for request id %s, which was never cancelled by its caller", n)
 			}
 			if seen[n] > 1 {
-				res.Failf("the peer received %d cancellation notices for request id %s", seen[n], n)
+				res.Class("duplicate_cancellation_notice") // harmless: it names the same, already cancelled request
 			}
 		}
 		// healthy-link cancellations must have produced their notice
 		for _, c := range calls {
-			if c.cancelled && !c.whileStall && c.id != nil && seen[fmt.Sprint(c.id.Raw())] == 0 && !c.responded {
+			if c.cancelled && !c.whileStall && c.id != nil && seen[idJSON(c.id)] == 0 && !c.responded {
 				res.Failf("call %d (id %v) was cancelled on a healthy link but the peer never received its cancellation notice", c.k, c.id.Raw())
 			}
 		}
